@@ -3,6 +3,8 @@ from props.ops import *        # noqa
 from props.start import *      # noqa
 from props.joins import *      # noqa
 
+from props.binary import cache_tasks, cache_harness      # noqa: E402
+
 META = {
     'explanation': 'Stream grammar: Start (N upstream replicas, every arrival interleaving, timeouts) and the stateful '
                    'operators (Fold, KeyedFold, WindowOperator over count and event-time windows) are driven to '
@@ -19,7 +21,10 @@ META = {
 def TASKS(tier):
     return (start_tasks(tier, 'start', progress=False) + fold_tasks(tier, 'fold') + keyed_fold_tasks(tier, 'keyed_fold') +
             window_op_tasks(tier, 'window_operator') + flat_map_tasks(tier, 'flat_map') +
-            [t for t in join_tasks(tier, 'join') if t.params['iters'] > 1])
+            [t for t in join_tasks(tier, 'join') if t.params['iters'] > 1] +
+            # the binary Start with a cached side input (inside a loop): its output must be a word of the grammar too,
+            # also when batch timeouts fire at an iteration boundary
+            [t for t in cache_tasks(tier, 'binary_start_cache') if t.params.get('timeouts') or t.params['rounds'] >= 3])
 
 
 def classify(t, v):
